@@ -179,7 +179,7 @@ Definition w_gen_two_headers : inst :=
      i_ep := {| e_url := [PLit "http://idp/g/id"]; e_method := "GET";
                 e_headers := [("X-A", [PLit "1"]); ("X-B", [PLit "2"])]; e_auth := ANone |};
      i_fwdh := []; i_fwdc := []; i_up := []; i_payload := None; i_values := []; i_ttl := Some five_min;
-     i_scopes := []; i_exprs := [] |}.
+     i_scopes := []; i_aud := []; i_session := false; i_exprs := [] |}.
 
 Definition q_plain (cred : string) : reqdata :=
   {| q_headers := []; q_cookies := []; q_outputs := []; q_sub_id := ""; q_sub_json := ""; q_cred := cred |}.
@@ -501,6 +501,7 @@ Proof.
   | X : option_eqb tpl_eqb _ _ = true |- _ => apply (option_eqb_eq _ tpl_eqb_eq) in X
   | X : list_eqb kt_eqb _ _ = true |- _ => apply (list_eqb_eq _ kt_eqb_eq) in X
   | X : option_eqb Z.eqb _ _ = true |- _ => apply (option_eqb_eq Z.eqb (fun x y => proj1 (Z.eqb_eq x y))) in X
+  | X : Bool.eqb _ _ = true |- _ => apply Bool.eqb_prop in X
   | X : list_eqb expr_eqb _ _ = true |- _ => apply (list_eqb_eq _ expr_eqb_eq) in X
   end.
   congruence.
@@ -566,7 +567,8 @@ Qed.
 (* ------------------------------------------------------------------ witnesses of the findings *)
 
 Definition w_world : world :=
-  {| t_tok := [("t.alice.r", (true, ["read"])); ("t.alice.rw", (true, ["read"; "write"]))]; t_deny := [] |}.
+  {| t_tok := [("t.alice.r", (true, ["read"], [])); ("t.alice.rw", (true, ["read"; "write"], []));
+               ("s.inactive", (false, [], []))]; t_deny := [] |}.
 
 Definition mk_step (i : inst) (q : reqdata) (ho vo : list string) : step :=
   {| st_inst := i; st_req := q; st_ho := ho; st_vo := vo |}.
@@ -575,7 +577,7 @@ Definition w_intro (scopes : list string) : inst :=
   {| i_kind := KIntro; i_id := "in";
      i_ep := {| e_url := [PLit "http://idp/i/introspect"]; e_method := ""; e_headers := []; e_auth := ANone |};
      i_fwdh := []; i_fwdc := []; i_up := []; i_payload := None; i_values := []; i_ttl := None;
-     i_scopes := scopes; i_exprs := [] |}.
+     i_scopes := scopes; i_aud := []; i_session := false; i_exprs := [] |}.
 
 Definition intro_ho : list string := ["Accept"; "Content-Type"].
 
@@ -597,7 +599,7 @@ Definition w_remote (exprs : list expr) : inst :=
   {| i_kind := KRemote; i_id := "ra";
      i_ep := {| e_url := [PLit "http://opa/r/authz"]; e_method := ""; e_headers := []; e_auth := ANone |};
      i_fwdh := []; i_fwdc := []; i_up := []; i_payload := Some [PLit "p="; PSubjectID]; i_values := [];
-     i_ttl := Some five_min; i_scopes := []; i_exprs := exprs |}.
+     i_ttl := Some five_min; i_scopes := []; i_aud := []; i_session := false; i_exprs := exprs |}.
 
 Definition q_sub (id : string) (headers outputs : alist) : reqdata :=
   {| q_headers := headers; q_cookies := []; q_outputs := outputs; q_sub_id := id;
@@ -622,7 +624,7 @@ Definition w_ctx_shift : inst :=
                 e_headers := [("X-Val", [PValue "v1"; PLit "|"; PValue "v2"])]; e_auth := ANone |};
      i_fwdh := []; i_fwdc := []; i_up := []; i_payload := None;
      i_values := [("v1", [PReqHeader "X-V1"]); ("v2", [PReqHeader "X-V2"])];
-     i_ttl := Some five_min; i_scopes := []; i_exprs := [] |}.
+     i_ttl := Some five_min; i_scopes := []; i_aud := []; i_session := false; i_exprs := [] |}.
 
 (** C11-F4 on a history: two values shifted against each other share the key; the
     second request is answered with the response computed for the first *)
@@ -647,7 +649,7 @@ Definition w_ctx_fwd : inst :=
   {| i_kind := KCtx; i_id := "cx";
      i_ep := {| e_url := [PLit "http://ctx/c/ctx"]; e_method := ""; e_headers := []; e_auth := ANone |};
      i_fwdh := ["X-F1"]; i_fwdc := []; i_up := []; i_payload := Some [PLit "p="; PSubjectID];
-     i_values := []; i_ttl := Some five_min; i_scopes := []; i_exprs := [] |}.
+     i_values := []; i_ttl := Some five_min; i_scopes := []; i_aud := []; i_session := false; i_exprs := [] |}.
 
 (** C11-F6: the value of a forwarded header is sent to the remote system but is not in the key *)
 Theorem F6_refuted :
@@ -666,7 +668,7 @@ Definition w_ctx_outputs : inst :=
   {| i_kind := KCtx; i_id := "cx";
      i_ep := {| e_url := [PLit "http://ctx/c/ctx/"; POutput "foo"]; e_method := ""; e_headers := []; e_auth := ANone |};
      i_fwdh := []; i_fwdc := []; i_up := []; i_payload := Some [PLit "p="; PSubjectID];
-     i_values := []; i_ttl := Some five_min; i_scopes := []; i_exprs := [] |}.
+     i_values := []; i_ttl := Some five_min; i_scopes := []; i_aud := []; i_session := false; i_exprs := [] |}.
 
 (** C11-F7: `.Outputs` in the endpoint URL is not in the key *)
 Theorem F7_refuted :
@@ -678,5 +680,26 @@ Proof.
   splits; try reflexivity.
   - split; simpl; constructor.
   - split; simpl; constructor.
+  - intro H. eapply not_transparent_steps; try reflexivity. discriminate.
+Qed.
+
+Definition w_gen (session : bool) : inst :=
+  {| i_kind := KGen; i_id := (if session then "strict" else "plain");
+     i_ep := {| e_url := [PLit "http://idp/g/id"]; e_method := "GET";
+                e_headers := [("X-Cred", [PAuthData])]; e_auth := ANone |};
+     i_fwdh := []; i_fwdc := []; i_up := []; i_payload := None; i_values := []; i_ttl := Some five_min;
+     i_scopes := []; i_aud := []; i_session := session; i_exprs := [] |}.
+
+(** C11-F10: a session the identity endpoint reports as not active, cached through a generic authenticator
+    without session_lifespan, is accepted by the one on the same endpoint that asserts the lifespan *)
+Theorem F10_refuted :
+  exists w a b, g_F10 [a; b] = true /\ step_orders_valid a /\ step_orders_valid b /\
+    forall H, map sr_out (run_cached fx_now H w [] [a; b]) <> map fst (run_fresh w [a; b]).
+Proof.
+  exists w_world, (mk_step (w_gen false) (q_plain "s.inactive") ["X-Cred"] []),
+         (mk_step (w_gen true) (q_plain "s.inactive") ["X-Cred"] []).
+  splits; try reflexivity.
+  - split; simpl; [apply Permutation_refl | constructor].
+  - split; simpl; [apply Permutation_refl | constructor].
   - intro H. eapply not_transparent_steps; try reflexivity. discriminate.
 Qed.
